@@ -68,7 +68,7 @@ Final(s, r) ==
     IF s.exc = "skip" THEN
         \* containment-only cases (C05): the run ended in a documented way with a BareScript value;
         \* what the value should be is outside the functional model
-        (IF C.containOnly THEN <<"ACCEPT">> ELSE <<"SKIP", "outside the exact domain">>)
+        (IF C.containOnly THEN <<"ACCEPT", "contained-only">> ELSE <<"SKIP", "outside the exact domain">>)
     ELSE IF s.exc = "fuel" THEN <<"SKIP", "evaluation fuel">>
     ELSE IF ss = "limit" /\ C.limit = 0 THEN <<"REJECT", "length", "the specified run is longer than the recorded one">>
     ELSE IF ss = "limit" /\ (C.limit > C.fin.cnt + 1) THEN <<"REJECT", "length", "the specified run is longer than the recorded one">>
